@@ -1,3 +1,92 @@
-import Chiritori.Spec.Holds
+import Chiritori.Lemmas.Grammar
+import Chiritori.Model.Remover
+/-
+  C09 — Tag grammar: name and attributes round-trip; quoted values are opaque.
+
+  `Spec.TagS` (Spec/Tag.lean) is the grammar: optional spaces, a name, then attributes each preceded by a
+  non-empty separator of spaces / line breaks, an attribute being a bare word or `name [spaces] = [spaces] q value q`
+  with q one of the two quote characters and the value free of q only; optional trailing separators.
+  `c09`: every such tag parses to exactly its name and, in order, its attribute names and values - for any number
+  of attributes and any values (spaces, `=`, the other quote, line breaks, keywords, the start delimiter).
+  `opaque`: changing quoted values changes neither the name nor the attribute names, hence no decision that looks
+  at names only (`skip`, `unwrap-block`).
+-/
 namespace Chiritori.Props.C09
+open Chiritori Chiritori.Spec
+
+def Statement : Prop := ∀ t : TagS, t.ok → parseBody t.render = some t.expected
+
+theorem c09 : Statement := parseBody_render
+
+/-- stripping the delimiters from a token whose body neither starts with the start delimiter nor ends with
+    the end delimiter gives the body -/
+theorem trimStartMatches_once (ds body : List Char) (hds : ds ≠ []) (hb : body ≠ [])
+    (hnp : ds.isPrefixOf body = false) : trimStartMatches (ds ++ body) ds = body := by
+  unfold trimStartMatches
+  have hlen : (ds ++ body).length = (ds.length + body.length - 2) + 1 + 1 := by
+    have h1 : 0 < ds.length := List.length_pos_iff.mpr hds
+    have h2 : 0 < body.length := List.length_pos_iff.mpr hb
+    simp; omega
+  rw [hlen]
+  simp only [trimStartMatchesAux]
+  have hp : ds.isPrefixOf (ds ++ body) = true := by
+    rw [List.isPrefixOf_iff_prefix]; exact List.prefix_append _ _
+  simp [hds, hp, hnp]
+
+theorem elparse_of_body (ds de body : List Char) (t : Token) (hds : ds ≠ []) (hde : de ≠ []) (hb : body ≠ [])
+    (hk : t.kind = .element) (hv : t.value = ds ++ body ++ de)
+    (h1 : ds.isPrefixOf (body ++ de) = false) (h2 : de.reverse.isPrefixOf body.reverse = false) :
+    elparse ds de t = parseBody body := by
+  unfold elparse
+  rw [hk]
+  simp only
+  rw [hv, List.append_assoc, trimStartMatches_once ds (body ++ de) hds (by simp [hb]) h1]
+  unfold trimEndMatches
+  rw [List.reverse_append, trimStartMatches_once de.reverse body.reverse (by simpa using hde) (by simpa using hb) h2]
+  simp
+
+/-- opacity: two grammar tags that differ only in their quoted values have the same name and the same
+    attribute names, in the same order -/
+def sameShape : AttrS → AttrS → Prop
+  | .bare n, .bare n' => n = n'
+  | .quoted n _ _ _ _, .quoted n' _ _ _ _ => n = n'
+  | _, _ => False
+
+inductive SameShapes : List (List Char × AttrS) → List (List Char × AttrS) → Prop
+  | nil : SameShapes [] []
+  | cons {a a' : List Char × AttrS} {as as' : List (List Char × AttrS)} :
+      sameShape a.2 a'.2 → SameShapes as as' → SameShapes (a :: as) (a' :: as')
+
+theorem opaque_names (t t' : TagS) (ht : t.ok) (ht' : t'.ok) (hname : t.name = t'.name)
+    (hattrs : SameShapes t.attrs t'.attrs) :
+    ∃ e e', parseBody t.render = some e ∧ parseBody t'.render = some e' ∧ e.name = e'.name ∧
+      e.attrs.map (·.name) = e'.attrs.map (·.name) := by
+  refine ⟨t.expected, t'.expected, c09 t ht, c09 t' ht', hname, ?_⟩
+  simp only [TagS.expected, List.map_map]
+  generalize t.attrs = l at hattrs
+  generalize t'.attrs = l' at hattrs
+  induction hattrs with
+  | nil => rfl
+  | @cons a a' as as' h _ ih =>
+    simp only [List.map_cons, ih]
+    congr 1
+    obtain ⟨_, x⟩ := a
+    obtain ⟨_, x'⟩ := a'
+    cases x <;> cases x' <;> simp_all [sameShape, AttrS.parsed]
+
+/-- a word inside a quoted value never becomes an attribute: the element is skipped iff some attribute of the
+    grammar tag is *named* `skip` -/
+theorem skip_iff (t : TagS) (ht : t.ok) :
+    ∃ e, parseBody t.render = some e ∧
+      (isSkip e = true ↔ ∃ sa ∈ t.attrs, sa.2.parsed.1 = "skip".toList) := by
+  refine ⟨t.expected, c09 t ht, ?_⟩
+  simp [isSkip, TagS.expected, List.any_eq_true]
+
+/-! Kernel-evaluated instances: the README continuation style and the D5 witness. -/
+example : parseBody "rm name='a'\nskip".toList = some ⟨"rm".toList, [⟨"name".toList, some "a".toList⟩, ⟨"skip".toList, none⟩]⟩ := by
+  decide +kernel
+example : parseBody "tl to=\"2024-01-01 00:00:00\" c = 'skip unwrap-block = \"x\"'".toList
+    = some ⟨"tl".toList, [⟨"to".toList, some "2024-01-01 00:00:00".toList⟩,
+        ⟨"c".toList, some "skip unwrap-block = \"x\"".toList⟩]⟩ := by decide +kernel
+
 end Chiritori.Props.C09
